@@ -406,3 +406,38 @@ Proof.
   apply (F_var "x" "-api.example.com" [] "a-b" [] "-api.example.com"); [reflexivity|].
   do 16 (apply F_lit; [reflexivity|reflexivity|]). apply F_end.
 Qed.
+(* Servers.MatchURL finds the first declared server that matches *)
+Lemma match_url_from_finds : forall servers k i s url ps rest,
+  nth_error servers i = Some s -> match_raw_url s url = MYes ps rest ->
+  (forall j s', j < i -> nth_error servers j = Some s' -> forall ps' rest', match_raw_url s' url <> MYes ps' rest') ->
+  match_url_from k servers url = Some (k + i, ps, rest).
+Proof.
+  induction servers as [|s0 sr IH]; intros k i s url ps rest Hn Hm Hfirst; [destruct i; discriminate|].
+  destruct i as [|i].
+  - simpl in Hn. inversion Hn; subst. simpl. rewrite Hm. now rewrite Nat.add_0_r.
+  - simpl in Hn. simpl.
+    destruct (match_raw_url s0 url) as [|ps0 rest0|] eqn:E.
+    + rewrite (IH (S k) i s url ps rest Hn Hm); [f_equal; f_equal; f_equal; lia|].
+      intros j s' Hj Hs'. apply (Hfirst (S j) s'); [lia|exact Hs'].
+    + exfalso. apply (Hfirst 0 s0 (Nat.lt_0_succ i) eq_refl ps0 rest0 E).
+    + rewrite (IH (S k) i s url ps rest Hn Hm); [f_equal; f_equal; f_equal; lia|].
+      intros j s' Hj Hs'. apply (Hfirst (S j) s'); [lia|exact Hs'].
+Qed.
+
+(* the legacy router on a document with servers: a URL made of a declared server's pattern filled with
+   values the matcher finds again, followed by a path whose text reaches a valued node of the trie, is
+   routed to that node's route - provided no earlier declared server matches the URL *)
+Theorem legacy_find_srv_complete : forall servers root method lit known i s names vals consumed rest0 n vals' r,
+  nth_error servers i = Some s ->
+  fills s names vals consumed -> findable s vals -> (rest0 = ""%string \/ String.prefix "/" rest0 = true) ->
+  (forall j s', j < i -> nth_error servers j = Some s' -> forall ps' rest', match_raw_url s' (consumed ++ rest0) <> MYes ps' rest') ->
+  tmatch root (strip_trailing_slashes (method ++ " " ++ slashify rest0)) [] = Some (n, vals') -> t_value n = Some r ->
+  legacy_find_srv servers root method (consumed ++ rest0) lit known = (RFound r (zip_params (t_names n) vals'), Some i).
+Proof.
+  intros servers root method lit known i s names vals consumed rest0 n vals' r Hn Hf Hd Hr Hfirst Ht Hv.
+  unfold legacy_find_srv. destruct servers as [|s0 sr]; [destruct i; discriminate|].
+  assert (Hm : match_raw_url s (consumed ++ rest0) = MYes vals (slashify rest0)).
+  { unfold match_raw_url. apply (match_raw_complete s names vals consumed Hf Hd rest0 Hr _ []). auto. }
+  unfold match_url. rewrite (match_url_from_finds (s0 :: sr) 0 i s _ vals (slashify rest0) Hn Hm Hfirst).
+  cbn [Nat.add]. unfold legacy_find. rewrite Ht, Hv. reflexivity.
+Qed.
